@@ -1068,17 +1068,25 @@ def r11_10(prog, rep, rid="R11.10"):
             l_ = strip_casts(l)
             if kind == "assign" and l_.get("k") == "mem" and l_.get("f") == "t" and l_.get("arrow") and lv(strip_casts(cfg.resolve(nn["r"]))) == tparam:
                 binds.append((b, i, nn.get("line", line)))
-    rs = call_sites(f, "echs_task_rset_ownr")
+    rs = [S for S in call_sites(f, "echs_task_rset_ownr") if lv(strip_casts(cfg.resolve(S.node["a"][0]))) == tparam]
     if not binds:
         raise AnalysisBroken("R11.10: _inject_task1 no longer binds the submitted task into a record")
+    # the record holds a pointer to the task: resetting the owner through the same pointer right after the binding is the same thing;
+    # what counts is that no path gets from the binding to the point where the task is scheduled (or the function returns success)
+    # without the reset
+    starts = call_sites(f, "ev_periodic_start")
     key = "_inject_task1/owner-reset-before-the-task-is-bound"
     for b, i, line in binds:
-        ok = any(S.b == b and S.i < i and lv(strip_casts(cfg.resolve(S.node["a"][0]))) == tparam for S in rs) or \
-            (rs and must_pass(cfg, cfg.entry, b, {S.b for S in rs if S.b != b and lv(strip_casts(cfg.resolve(S.node["a"][0]))) == tparam}))
+        targets = [(S.b, S.i) for S in starts] or [(cfg.exit, 0)]
+        ok = True
+        for tb, ti in targets:
+            before = any(S.b == tb and S.i < ti for S in rs)
+            if not (before or (rs and must_pass(cfg, cfg.entry, tb, {S.b for S in rs if S.b != tb}))):
+                ok = False
         if ok:
-            rep.ok(rid, key, f.loc(line), "every path that binds the task has reset its owner to the authenticated uid")
+            rep.ok(rid, key, f.loc(line), "every path that schedules the submitted task has reset its owner to the authenticated uid")
         else:
-            rep.fail(rid, key, f.loc(line), "a path binds the submitted task into the record without echs_task_rset_ownr(): the owner slot keeps what "
+            rep.fail(rid, key, f.loc(line), "a path binds and schedules the submitted task without echs_task_rset_ownr(): the owner slot keeps what "
                      "the client wrote (a login name reads as `no uid`), so the task is listed, checkpointed, replaceable and cancellable by nobody")
 
 
